@@ -437,3 +437,29 @@ def hidden_state_calls(prog, bodies):
                             continue
                     out.append((b, nm, t.get('sp')))
     return out
+
+
+def char_functions(prog):
+    """[(body, {code: set of char values or None})]: every u8 -> char function or closure of rs1090 statically reachable
+    from a `callsign_read`, evaluated by the abstract interpreter on each of the 64 singleton 6-bit codes"""
+    import absint as A_
+    import runner
+    roots = [b for b in prog.bodies.values() if b['crate'] == 'rs1090' and b['kind'] == 'fn' and b['item'] == 'callsign_read']
+    out = []
+    for b in static_reach(prog, roots):
+        if b['kind'] not in ('fn', 'closure'):
+            continue
+        tys = [prog.types[x]['s'] for x in b['locals'][:b['argc'] + 1]]
+        if not (tys and tys[0] == 'char' and tys[-1] == 'u8' and b['argc'] == (1 if b['kind'] == 'fn' else 2)):
+            continue
+        table = {}
+        for c in range(64):
+            E = runner.make_engine(prog, K=8)
+            args = [A_.const_int(c)] if b['kind'] == 'fn' else [('T', b['locals'][1], None), A_.const_int(c)]
+            vals = set()
+            for st, v in runner.run_entry(E, b, args, quiet=True):
+                x = E.scalar(st, v)
+                vals.add(x[1] if x[0] == 'I' and x[1] == x[2] else None)
+            table[c] = vals
+        out.append((b, table))
+    return out
